@@ -869,8 +869,23 @@ def check_signature_subject(prog: Program, rep: Report):
                 if c[2][:1] != (obj,):
                     bad.append(T.show(c)[:80])
     rep.check(n > 0 and not bad, "R10.5", sig.qualname, sig.loc, "inspect.signature is applied to the callable itself", f"inspect.signature is applied to something other than the callable that will be called ({bad[:1]}): for a bound method of a decorated function the unwrapped function still has `self`, so every positional converter shifts by one", detail="subject")
-    cs = P.module_term(prog, prog.module("typelib.py.inspection"), "cached_signature")
-    rep.check(T.is_call_to(cs, "functools.cache") and cs[2] == (("ref", "typelib.py.inspection.signature"),), "R10.5", "typelib.py.inspection.cached_signature", sig.loc, "cached_signature memoises signature() itself", "cached_signature is not compat.cache(signature)", detail="cached")
+    insp = prog.module("typelib.py.inspection")
+    if "cached_signature" in insp.assigns:
+        cs = P.module_term(prog, insp, "cached_signature")
+        rep.check(T.is_call_to(cs, "functools.cache") and cs[2] == (("ref", "typelib.py.inspection.signature"),), "R10.5", "typelib.py.inspection.cached_signature", sig.loc, "cached_signature memoises signature() itself, keyed by the callable", "cached_signature is not compat.cache(signature)", detail="cached")
+    elif "cached_signature" in insp.functions:
+        cf = insp.functions["cached_signature"]
+        o = ("param", cf.params[0])
+        keys = []
+        for p in P.paths_of(prog, cf):
+            for e in p.events:
+                if e[0] == "setitem" and e[1][0] == "ref":
+                    keys.append(e[2])
+            if p.exit[0] == "return" and p.exit[1][0] == "sub" and p.exit[1][1][0] == "ref":
+                keys.append(p.exit[1][2])
+        rep.check(bool(keys) and all(k == o for k in keys), "R10.5", cf.qualname, cf.loc, "the signature memo is keyed by the callable itself", f"the signature memo is keyed by {sorted({T.show(k)[:50] for k in keys})}, not by the callable: two callables sharing that key (closures of one def, a bound method and its function) are bound with one another's signature", detail="cached")
+    else:
+        rep.undecided("R10.5", "typelib.py.inspection.cached_signature", sig.loc, "cached_signature not found", detail="cached")
 
 
 def run(prog: Program, rep: Report, tier: str):
